@@ -63,6 +63,13 @@ theorem sell_rejected (cx : NumCtx) (e : Env) (s : State) (o q : Option Rat) (h 
     rw [ha] at h
     exact fromUni_rejected e s _ (Uni.sell_atomic ..) h
 
+/-- both trades of the long side: vaults, pool positions and the id counter are what they were (accepted or rejected, any context) -/
+theorem trade_frame (cx : NumCtx) (e : Env) (s : State) (op : Op) (hop : op.isTrade = true) :
+    (step cx e s op).st.vaults = s.vaults ∧ (step cx e s op).st.positions = s.positions ∧ (step cx e s op).st.maxId = s.maxId := by
+  cases op with
+  | buy o q => exact buy_frame cx e s o q
+  | sell o q => exact sell_frame cx e s o q
+  | _ => simp [Op.isTrade] at hop
 theorem longPool_base (e : Env) : (longPool e).baseTok = sqOsqthName := rfl
 theorem longPool_quote (e : Env) : (longPool e).quoteTok = sqWethName := rfl
 theorem longKern_cx (cx : NumCtx) : (longKern cx).cx = cx := rfl
